@@ -8,4 +8,10 @@ pub assume_specification<T>[ bool::then_some ](b: bool, t: T) -> (r: Option<T>)
     where T: std::marker::Destruct,
     ensures r == (if b { Some(t) } else { None::<T> });
 
+/// `OPT.map(f)` (R7 wrapper)
+#[verifier::external_body]
+pub fn vx_opt_map<T, U, F: FnOnce(T) -> U>(o: Option<T>, f: F) -> (r: Option<U>)
+    requires o is Some ==> f.requires((o.unwrap(),)),
+    ensures o is None ==> r is None, o is Some ==> r is Some && f.ensures((o.unwrap(),), r.unwrap()),
+{ o.map(f) }
 } // verus!
